@@ -77,6 +77,22 @@ fields!(
     Field77A, Field77B, Field77T, Field79, Field86, Field90C, Field90D,
 );
 
+/// The 25 multi-option (enum) field families; their values must be re-parsed through
+/// `parse_with_variant` with the option letter of the emitted tag (the library's
+/// `get_variant_tag` is not implemented for them, so the list is kept here).
+pub static ENUM_TYPES: &[&str] = &[
+    "Field25AccountIdentification", "Field32", "Field32AB", "Field32AmountCD", "Field50InstructingParty",
+    "Field50OrderingCustomerFGH", "Field50OrderingCustomerAFK", "Field50OrderingCustomerNCF", "Field50Creditor",
+    "Field52AccountServicingInstitution", "Field52OrderingInstitution", "Field52CreditorBank", "Field52DrawerBank",
+    "Field53SenderCorrespondent", "Field54ReceiverCorrespondent", "Field55ThirdReimbursementInstitution",
+    "Field56Intermediary", "Field56IntermediaryAD", "Field57", "Field57DebtInstitution", "Field58", "Field59",
+    "Field59Debtor", "Field60", "Field62",
+];
+
+pub fn is_enum_type(name: &str) -> bool {
+    ENUM_TYPES.contains(&name)
+}
+
 pub fn field(name: &str) -> Option<&'static FieldOps> {
     FIELDS.iter().find(|f| f.name == name)
 }
